@@ -264,6 +264,13 @@ func runCheck(o checkOpts) int {
 			if ok {
 				suffix = ""
 			}
+		} else if ob.HarnessJob != nil && ob.Result != nil && ob.Result.Verdict == VSat {
+			// a bounded stand-in that ran on the real code and found an input on which it fails
+			rep["replay_on_real_code"] = ob.Result.Output
+			rep["harness_recipe"] = map[string]interface{}{"pkg": ob.HarnessPkg, "kind": ob.HarnessJob.Kind, "args": ob.HarnessJob.Args}
+			if ob.HarnessJob.Args["lang"] == "" {
+				suffix = ""
+			}
 		} else if ob.fx != nil && ob.Result != nil && ob.Result.Verdict == VSat {
 			ok, detail := p.replayModel(o, ob)
 			rep["replay_on_real_code"] = detail
